@@ -16,8 +16,10 @@ def metaJ (m : Meta) : J := .obj (m.map (fun kv => (kv.1, J.str kv.2)))
 def postingJ (p : Posting) : J :=
   .obj [("source", .str p.source), ("destination", .str p.destination), ("amount", .num p.amount), ("asset", .str p.asset)]
 
-/-- `off`: the UTC offset (µs) the client wrote the timestamp with; the instant is `tx.timestamp`, the text shows the
-wall-clock `tx.timestamp + off` (ParseTime keeps the offset, `Time.MarshalJSON` prints it) -/
+/-- `off`: the UTC offset (µs) carried by the timestamp TEXT of the stored payload; the instant is `tx.timestamp`, the text
+shows the wall-clock `tx.timestamp + off`.  `ParseTime` converts to UTC (Props/C13 `accepted_wf`: every accepted timestamp has
+offset 0) and `Time.MarshalJSON` prints what it is given, so everything the engine stores has `off = 0`; the check feeds this
+parameter with the offset it OBSERVES in the text the real code marshals. -/
 def txJ (off : Int) (tx : Tx) : J :=
   .obj ([("postings", .arr (tx.postings.map postingJ)), ("metadata", metaJ tx.metadata), ("timestamp", .time (tx.timestamp + off) off)]
     ++ (if tx.reference == "" then [] else [("reference", .str tx.reference)])
@@ -44,7 +46,7 @@ def logRow (off : Int) (l : CLog) : LogsRow :=
 def stepDB (off : Int) (db : DB) (l : CLog) : DB := (insert_logs db (logRow off l)).1
 
 /-- the tables after the log sequence has been inserted, entry by entry; each entry comes with the UTC offset (µs) its
-transaction timestamp was written with (0: UTC, what `Now()` produces) -/
+stored transaction timestamp text carries (0: UTC — what `Now()` and `ParseTime` produce) -/
 def projectO (lo : List (CLog × Int)) : DB := lo.foldl (fun db x => stepDB x.2 db x.1) {}
 def projectFrom (off : Int) (db : DB) (logs : List CLog) : DB := logs.foldl (stepDB off) db
 def project (logs : List CLog) : DB := projectFrom 0 {} logs
@@ -176,7 +178,10 @@ def discrepanciesO (lo : List (CLog × Int)) : List Disc :=
 
 def discrepancies (logs : List CLog) : List Disc := discrepanciesO (logs.map (fun l => (l, 0)))
 
--- ---------------------------------------------------------------- the two shapes of history on which the projection is known to differ
+-- ---------------------------------------------------------------- shapes of history on which the projection USED TO differ
+/-! Diagnostic only: before the repairs of `insert_move`, `insert_posting` (0-init-schema.sql) and `ParseTime` these three shapes
+were the recorded findings F24 / F29 / F25; nothing is excused by them any more (`smallScopeOk` asks for `discrepancies = []`).
+The classification stays so that a discrepancy, should one come back, is reported with the shape of history it sits on. -/
 
 structure ShapeState where
   seen : List String := []                       -- accounts that exist
